@@ -86,10 +86,10 @@ Print Assumptions C05_cycle_satisfies_oracle.
 (* and for a whole connection (any startup packet, middleware outcomes, byte stream):
    the model's log passes [oracle_C05], the predicate evaluated on the implementation *)
 Theorem C05_model_satisfies_oracle : forall sc,
-  sc_auth sc = None -> case_nocopy sc = true ->
+  case_nocopy sc = true ->
   (forall v after rest, start (cfg_of_case sc) (sc_raw sc) = Some (v, after, rest) -> v <> version_ssl) ->
   oracle_C05 sc (run_case sc) = true.
-Proof. exact oracle_C05_model. Qed.
+Proof. exact oracle_C05_model_auth. Qed.
 Print Assumptions C05_model_satisfies_oracle.
 
 Definition ex_case : scase :=
